@@ -135,7 +135,19 @@ def np_default(o):
 def make_vector(cfg):
     names, defaults, mins, maxs, chk, nan = cfg[:6]
     cb = cfg[6] if len(cfg) > 6 else True
-    v = Vector(list(names), list(defaults), list(mins), list(maxs),
+    # constructor arguments left out: no lower / upper bounds, defaults (and
+    # initial values) = zero clipped into the bounds
+    omit = cfg[7] if len(cfg) > 7 else []
+    if "mins" in omit:
+        mins = [-math.inf] * len(names)
+    if "maxs" in omit:
+        maxs = [math.inf] * len(names)
+    if "defaults" in omit:
+        defaults = [min(max(0.0, a), b) for a, b in zip(mins, maxs)]
+    v = Vector(list(names),
+               None if "defaults" in omit else list(defaults),
+               None if "mins" in omit else list(mins),
+               None if "maxs" in omit else list(maxs),
                check_bounds=cb, check_hitbounds=chk, accept_nan=nan)
     return v, Model(names, defaults, mins, maxs, chk, nan, cb)
 
@@ -334,7 +346,11 @@ def config(draw):
     # check_bounds can only be switched off without hit checking (the
     # values are clipped whatever its value)
     cb = True if chk else draw(st.booleans())
-    return [names, defaults, mins, maxs, chk, nan, cb]
+    omit = draw(st.sampled_from([[], [], [], ["defaults"], ["defaults"],
+                                 ["mins"], ["maxs"], ["defaults", "mins"],
+                                 ["defaults", "maxs"],
+                                 ["defaults", "mins", "maxs"]]))
+    return [names, defaults, mins, maxs, chk, nan, cb, omit]
 
 
 @st.composite
@@ -393,11 +409,25 @@ def machine_factory(tier, rec):
         @initialize(cfg=config())
         def start(self, cfg):
             self.cfg = cfg
-            v, m = make_vector(tuple(cfg))
-            self.pool = [[v, m]]
-            check_against(v, m, "construction")
             if rec is not None:
                 rec.machine_begin(self.case())
+            try:
+                v, m = make_vector(tuple(cfg))
+                self.pool = [[v, m]]
+                check_against(v, m, "construction")
+            except Violation as e:
+                if rec is not None:
+                    rec.machine_failure(self.case(), str(e))
+                raise
+            except Exception as e:
+                from vf.core import from_code_under_test
+                if from_code_under_test(e):
+                    msg = ("unexpected exception from the code under test "
+                           f"at construction: {type(e).__name__}: {e}")
+                    if rec is not None:
+                        rec.machine_failure(self.case(), msg)
+                    raise Violation(msg) from e
+                raise
 
         def _n(self, k):
             return len(self.pool[k % len(self.pool)][1].names)
